@@ -85,6 +85,8 @@ pub struct LspContext {
     codegen: Option<Arc<Mutex<CodegenContext>>>,
     parsing_source: Arc<Mutex<LspParsingSource>>,
     shutdown_manager: Arc<Mutex<ShutdownManager>>,
+    /// The files for which we have last published a non-empty list of diagnostics
+    files_with_diagnostics: std::collections::HashSet<String>,
     #[cfg(test)]
     responses: Arc<Mutex<Vec<lsp_server::Response>>>,
 }
@@ -168,6 +170,7 @@ impl LspContext {
             codegen: None,
             parsing_source: Arc::new(Mutex::new(LspParsingSource::new())),
             shutdown_manager: Arc::new(Mutex::new(ShutdownManager::new())),
+            files_with_diagnostics: Default::default(),
             #[cfg(test)]
             responses: Arc::new(Mutex::new(vec![])),
         }
